@@ -357,6 +357,9 @@ def gen_rel(rng, kind=None, depth=0, counter=None):
         # the split function is a table over (id, key field): 0..3 parts per entry, sometimes colliding new ids
         sargs = ['id'] + ([f for f in fields if f.startswith('k')][:1] if rng.random() < 0.5 else [])
         collide = rng.random() < 0.12
+        # the parts are ints, or LISTS (a list is not a tuple: the fields get exactly the part `__split__` produced)
+        list_parts = rng.random() < 0.3
+        mk_part = (lambda j: {'app': ['$list', [j, 'p'], [], []]}) if list_parts else (lambda j: j)
         table = []
         seen_keys = set()
         for i in UNIVERSE + FOREIGN:
@@ -368,7 +371,7 @@ def gen_rel(rng, kind=None, depth=0, counter=None):
                 continue
             seen_keys.add(repr(vals))
             nparts = rng.choice([0, 1, 1, 2, 3])
-            pairs = [[(f'{i}:{j}' if not (collide and rng.random() < 0.4) else 'dup'), j] for j in range(nparts)]
+            pairs = [[(f'{i}:{j}' if not (collide and rng.random() < 0.4) else 'dup'), mk_part(j)] for j in range(nparts)]
             if collide and nparts >= 2 and rng.random() < 0.5:
                 pairs[1][0] = pairs[0][0]        # the same new id twice within one entry
             table.append([vals, pairs])
